@@ -224,6 +224,15 @@ func All() []Op {
 		{Name: "save-absent-key-plain", Kind: "save", Text: `Save(&User{ID:99 (absent), Name:"ghost"})`,
 			Run:   func(db *gorm.DB) error { return db.Save(&User{ID: 99, Name: "ghost"}).Error },
 			Delta: d("users", 1, "audits", 1), Tags: []string{TagSaveAbsentHooks}},
+		{Name: "save-absent-key-no-association-no-writing-hook", Kind: "save", Text: `Save(&Company{ID:99 (absent), Name:"ghost"})`,
+			Run:   func(db *gorm.DB) error { return db.Save(&Company{ID: 99, Name: "ghost"}).Error },
+			Delta: d("companies", 1)},
+		{Name: "save-absent-string-key-plain", Kind: "save", Text: `Save(&Language{Code:"xx" (absent), Name:"X"})`,
+			Run:   func(db *gorm.DB) error { return db.Save(&Language{Code: "xx", Name: "X"}).Error },
+			Delta: d("languages", 1)},
+		{Name: "save-absent-key-hookless-model", Kind: "save", Text: `Save(&Office{ID:99 (absent), CompanyID:1, City:"x"})`,
+			Run:   func(db *gorm.DB) error { return db.Save(&Office{ID: 99, CompanyID: 1, City: "x"}).Error },
+			Delta: d("offices", 1)},
 		{Name: "save-absent-key-with-company", Kind: "save", Text: `Save(&User{ID:99 (absent), Company: Company{Name:"c"}})`,
 			Run: func(db *gorm.DB) error {
 				return db.Save(&User{ID: 99, Name: "ghost", Company: Company{Name: "c"}}).Error
